@@ -26,6 +26,7 @@ func vEngines() []drv.Runner {
 			Gen: func(t *rapid.T) c01Case { return c01Case{Script: genScript(t, c01Opts)} },
 			Run: func(t *testing.T, c c01Case, st *drv.Stats) *drv.Failure { return runSeq(t, c.Script, st, nil) },
 		}),
+		drv.Wrap(drv.Engine[c02Case]{Property: "C02", Name: "c02", Gen: genC02, Run: runC02, BatchChecks: 20}),
 		drv.Wrap(drv.Engine[c04Case]{Property: "C04", Name: "c04", Gen: genC04, Run: runC04}),
 	}
 }
